@@ -193,6 +193,15 @@ func runCase(m *mon.M, c *Case) {
 		case "readcloser":
 			stream = content("binary", c.BodyLen)
 			_ = req.SetBodyParam(io.NopCloser(bytes.NewReader(stream)))
+		case "bytes.Buffer": // a caller-owned buffer: the same concrete type the request uses internally
+			stream = content("json", c.BodyLen)
+			_ = req.SetBodyParam(bytes.NewBuffer(append([]byte(nil), stream...)))
+		case "bytes.Reader":
+			stream = content("binary", c.BodyLen)
+			_ = req.SetBodyParam(bytes.NewReader(stream))
+		case "strings.Reader":
+			stream = content("text", c.BodyLen)
+			_ = req.SetBodyParam(strings.NewReader(string(stream)))
 		}
 		for k, v := range c.Fields {
 			_ = req.SetFormParam(k, v...)
@@ -287,7 +296,7 @@ func runCase(m *mon.M, c *Case) {
 			return
 		}
 		m.Class("value-ok")
-	case c.Payload == "reader" || c.Payload == "readcloser":
+	case c.Payload == "reader" || c.Payload == "readcloser" || c.Payload == "bytes.Buffer" || c.Payload == "bytes.Reader" || c.Payload == "strings.Reader":
 		if !bytes.Equal(stream, cap.body) {
 			m.Violate("stream-bytes-differ/"+feat, fmt.Sprintf("sent %d bytes, the reader held %d ; %s", len(cap.body), len(stream), c.describe()), c)
 			return
@@ -535,7 +544,11 @@ func run(m *mon.M) {
 	mts := []string{"application/json", "application/xml", "application/x-yaml", "text/plain", "text/html", "text/csv", "application/octet-stream", "multipart/form-data", "application/x-www-form-urlencoded"}
 	for i := 0; i < n; i++ {
 		c := &Case{Method: []string{"POST", "PUT", "PATCH", "POST"}[r.Intn(4)], GetBody: getBodies[r.Intn(4)]}
-		switch r.Intn(10) {
+		switch r.Intn(11) {
+		case 10:
+			c.MediaType = mts[r.Intn(7)]
+			c.Payload = []string{"bytes.Buffer", "bytes.Reader", "strings.Reader"}[r.Intn(3)]
+			c.BodyLen = lens()
 		case 0, 1, 2: // value
 			c.MediaType = mts[r.Intn(7)]
 			c.Payload = "value"
@@ -544,7 +557,7 @@ func run(m *mon.M) {
 			c.BodyLen = lens()
 		case 3:
 			c.MediaType = mts[r.Intn(7)]
-			c.Payload = []string{"reader", "readcloser"}[r.Intn(2)]
+			c.Payload = []string{"reader", "readcloser", "bytes.Buffer", "bytes.Reader", "strings.Reader"}[r.Intn(5)]
 			c.BodyLen = lens()
 		case 4: // fields only
 			c.MediaType = []string{"application/x-www-form-urlencoded", "multipart/form-data"}[r.Intn(2)]
